@@ -44,7 +44,7 @@ ASSUMPTIONS = [
     "numba kernels run single-threaded",
 ]
 PROBES = [
-    "tree_depth>=3", "cohorts_multi", "cohort_tree_depth>=2", "grouped_combine", "scan_blocks>=4",
+    "multi_axis_tree_shapes", "tree_depth>=3", "cohorts_multi", "cohort_tree_depth>=2", "grouped_combine", "scan_blocks>=4",
     "crash_recomputed_released_key", "dup_second_result_kept", "inflight>=2", "backend_B", "thread_pool_name",
 ]
 
@@ -139,10 +139,18 @@ def run(case, tape: Tape, ctx):
                 execution=e, backend=k2["backend"], faults=k2.get("faults"),
             )
     # 2. every tree shape
-    if case["kind"] == "reduce" and nb >= 2:
+    by_ndim = len(case["by"][0]["shape"])
+    nb_axes = [len(c) for c in case["chunks"][-by_ndim:]]
+    if case["kind"] == "reduce" and max(nb_axes) >= 2:
         ks = list(range(2, nb + 1))
         if len(ks) > 6:
             ks = sorted(set([2, 3, nb] + tape.shuffle("gen.ks", ks)[:3]))
+        if by_ndim > 1:
+            # several reduced axes: dask gives each axis split_every ** (1/naxes); include the split_every that
+            # makes the tree ONE level deep on every axis (the flat reference) and an intermediate one
+            flat = max(nb_axes) ** by_ndim
+            ks = sorted(set(ks + [flat, max(2, flat // 2), max(nb_axes)]))
+            ctx.probe("multi_axis_tree_shapes")
         for k in ks:
             if k == se:
                 continue
